@@ -6,12 +6,11 @@ META = {
     "note": "Trusts the in-process Wire/virtual reactor, the Kuhn matching model and the reference upload on an all-honest scratch grid (C01). Disk space is simulated by substituting fileutil.get_disk_stats as seen by the storage server. An upload that fails although a happy layout was reachable belongs to C07 and is only counted. Sampled exploration.",
 }
 LEVEL = "exploration"
-BUDGET = {"quick": 40, "thorough": 420}
+BUDGET = {"quick": 45, "thorough": 420}
 SHARDS = {"quick": 1, "thorough": 12}
 
 from vf import env  # noqa
 import os
-import struct
 
 KINDS = ["ok", "ok", "ok", "ok", "readonly", "full", "full-late", "space-for-m", "space-for-m-late",
          "not-permitted", "dead", "raise-nth", "raise-nth", "raise-nth", "raise-all", "error-after",
@@ -20,7 +19,7 @@ METHODS = ["get_buckets", "allocate_buckets", "write", "write", "close", "close"
 
 
 # ------------------------------------------------------------------ case generation (pure data)
-def gen_case(rng, tier):
+def gen_case(rng, tier, directed=None):
     nservers = rng.choice([1, 2, 2, 3, 3, 4, 4, 5, 5, 6, 7, 8, 10, 12])
     n = rng.choice([1, 2, 3, 3, 4, 4, 5, 6, 8, 10])
     k = rng.randint(1, n)
@@ -70,9 +69,25 @@ def gen_case(rng, tier):
         # nobody to upload to: every server refuses uploads or is gone
         for s in range(nservers):
             servers[s] = rng.choice([{"kind": "not-permitted"}, {"kind": "dead", "zombie": False}])
+    if directed == "timeout" and nservers >= 2:
+        # healthy servers plus one whose allocate/get_buckets answer arrives after the 15 s query timeout
+        for s in range(nservers):
+            servers[s] = {"kind": "ok"}
+        servers[rng.randrange(nservers)] = {"kind": "slow-20s", "delay": rng.choice([16.0, 20.0, 40.0]),
+                                            "method": rng.choice(["get_buckets", "allocate_buckets", None])}
+    elif directed == "transfer" and nservers >= 2:
+        for s in range(nservers):
+            servers[s] = {"kind": "ok"}
+        for s in rng.sample(range(nservers), rng.choice([1, 1, 2]) if nservers > 2 else 1):
+            servers[s] = {"kind": rng.choice(["raise-nth", "disconnect-nth", "error-after"]),
+                          "method": rng.choice(["write", "close"]), "nth": rng.choice([1, 1, 2])}
     n_ok = sum(1 for sp in servers if sp["kind"] == "ok")
     n_push = sum(1 for sp in servers if sp["kind"] in ("ok", "raise-nth", "disconnect-nth", "error-after", "slow"))
     happy = rng.choice([1, k, n_ok - 1, n_ok, n_ok, n_ok + 1, n_push, n_push - 1, nservers, n, n + 1])
+    if directed == "transfer":
+        happy = rng.choice([n_push, n_push - 1, n_ok, n_ok + 1])
+    elif directed == "timeout":
+        happy = rng.choice([n_ok, n_ok, n_ok + 1, 1])
     happy = max(1, min(n + 1, happy))
     if rng.random() < .85:
         happy = min(happy, n)
@@ -98,15 +113,7 @@ def gen_case(rng, tier):
                 preexisting=pre, incoming=inc, batch=batch, profile=profile)
 
 
-def share_data(raw):
-    """Share data region of an immutable share file (without container header and leases)."""
-    if len(raw) < 12:
-        return None
-    (nleases,) = struct.unpack(">L", raw[8:12])
-    end = len(raw) - 72 * nleases
-    if end < 12:
-        return None
-    return raw[12:end]
+from vf.checks._immref import share_data, reference_shares  # noqa: E402
 
 
 class FakeDisk(object):
@@ -158,14 +165,14 @@ def run(ck):
                     break
                 continue
             rng = ck.rng("case", i)
-            case = gen_case(rng, ck.tier)
+            case = gen_case(rng, ck.tier, {0: "timeout", 1: "transfer", 2: "transfer"}.get((i // ck.nshards) % 8))
             try:
                 with ck.watchdog(180, "case %d" % i):
                     one_case(ck, rng, case, layout, orig_defaults)
             finally:
                 layout.WriteBucketProxy.__init__.__defaults__ = orig_defaults
-            if ck.tier == "quick" and ck.evaluations >= 600:
-                break
+            if ck.tier == "quick" and ck.evaluations >= 300:
+                break      # fixed number of cases: a quick run is reproducible per VERIF_SEED on any machine
     finally:
         layout.WriteBucketProxy.__init__.__defaults__ = orig_defaults
     ck.require_monitor("happiness-oracle", "reported-share-oracle", "failure-oracle")
@@ -187,7 +194,7 @@ def one_case(ck, rng, case, layout, orig_defaults):
     data = imm.gen_data(rng, case["size"])
     key = rng.randbytes(16)
     try:
-        refcap, refraw = imm.honest_shares(max(1, min(n, 4)), params, data, key)
+        refcap, refraw = reference_shares(max(1, min(n, 4)), params, data, key)
     except RuntimeError:
         ck.observe("scratch-upload-failed")
         return
@@ -219,7 +226,11 @@ def one_case(ck, rng, case, layout, orig_defaults):
         for (s, sh, frac) in case["incoming"]:
             vs = g.servers[s]
             # another uploader's unfinished share: allocated through the real server API, partly written, never closed
-            _, bws = vs.ss.allocate_buckets(si, b"R" * 32, b"C" * 32, {sh}, alloc)
+            try:
+                _, bws = vs.ss.allocate_buckets(si, b"R" * 32, b"C" * 32, {sh}, alloc)
+            except Exception as e:      # e.g. NoSpace from a full server that already holds shares
+                ck.observe("incoming-setup-refused:" + type(e).__name__)
+                continue
             if sh in bws:
                 cut = int(alloc * frac)
                 if cut:
@@ -420,3 +431,21 @@ def _f(res):
         return "%s: %s" % (res.type.__name__, str(res.value)[:300])
     except Exception:
         return repr(res)[:300]
+
+
+# MUST_CATCH (selftest/breaks_c06.py; all caught on quick, seed 0):
+#   c06-remove-shareholder-no-recheck            encode.py _remove_shareholder: happiness not re-checked
+#   c06-lost-share-still-counted                 encode.py _remove_shareholder: lost share stays in servermap
+#   c06-final-test-lets-happy-minus-one-through  upload.py get_shareholders: final `<` test off by one
+#   c06-success-does-not-wait-for-close          encode.py close_all_shareholders: result not awaited
+#   c06-close-errors-ignored                     encode.py close errback swallowed
+#   c06-client-abort-closes-instead              layout.py WriteBucketProxy.abort sends close
+#   c06-server-abort-publishes-share             storage/immutable.py remote_abort -> close
+#   c06-results-report-lost-shares               upload.py _encrypted_done reports every allocated share
+# NOT catchable under the statement (only incoming/ leftovers, invisible to readers; the observation counter
+# "incoming-leftovers-after-failed-upload" rises, no verdict): Tahoe2ServerSelector._failed without tracker.abort();
+# Encoder.err without landlord.abort().
+# Adjacent finding, not a C06 verdict (threshold was reachable; counted under
+# dont_care "failed-with-other-error-threshold-possibly-reachable"): when a server times out / fails in the first
+# allocation round, the second round re-places shares that already have a bucket on another server; the same share
+# number is then allocated twice and CHKUploader.set_shareholders dies with AssertionError instead of uploading.
